@@ -5,7 +5,7 @@
 use super::*;
 use crate::fd::Kind;
 use crate::io_uring::sq::verif_sq::{W, any_sqe, sqe_bytes, subs_of, zero_sqe};
-use crate::io_uring::verif_uring::{self as vu, FakeSq, ring_inv};
+use crate::io_uring::verif_uring::{self as vu, FakeSq, abi, ring_inv};
 use crate::verif_env as env;
 use crate::verif_lib::sq_from;
 use std::sync::atomic::Ordering;
@@ -71,4 +71,116 @@ fn c07_stdio() {
     kani::cover!(which == 0, "stdin");
     kani::cover!(which == 2, "stderr");
     kani::cover!(t.wrapping_sub(h) == 2, "even with a full queue");
+}
+
+// =========================================================================================
+// C10  step contracts of the all-or-error composite operations, from an ARBITRARY intermediate state
+//   (skip, offset, remaining) with the inner operation's final completion forced to Done(n).
+//   Buffers live in a real 64-byte backing store (the continuation does pointer arithmetic), lengths <= 16: bounded.
+// =========================================================================================
+use crate::io_uring::op::verif_op::{St, force_done, status_any, user_data_of};
+use crate::io_uring::net::verif_net::{any_kind, fixed};
+use std::future::Future;
+use std::pin::Pin;
+use std::task::{Context, Poll};
+
+static mut BACKING: [u8; 64] = [0xA5; 64];
+pub(crate) const MAXLEN: u32 = 16;
+
+/// Real-memory buffer: `len` initialised bytes at `ptr`, capacity `cap`.
+#[derive(Copy, Clone)]
+pub(crate) struct RB {
+    pub ptr: *mut u8,
+    pub cap: u32,
+    pub len: u32,
+}
+unsafe impl Buf for RB {
+    unsafe fn parts(&self) -> (*const u8, u32) {
+        (self.ptr.cast_const(), self.len)
+    }
+}
+unsafe impl BufMut for RB {
+    unsafe fn parts_mut(&mut self) -> (*mut u8, u32) {
+        (unsafe { self.ptr.add(self.len as usize) }, self.cap - self.len)
+    }
+    unsafe fn set_init(&mut self, n: usize) {
+        assert!(n <= (self.cap - self.len) as usize);
+        self.len += n as u32;
+    }
+    fn spare_capacity(&self) -> u32 {
+        self.cap - self.len
+    }
+}
+/// Buffer number `slot` (0..3) of the backing store with symbolic length / capacity <= MAXLEN.
+pub(crate) fn any_rb(slot: usize) -> RB {
+    let cap: u32 = kani::any();
+    let len: u32 = kani::any();
+    kani::assume(cap <= MAXLEN && len <= cap);
+    RB { ptr: unsafe { std::ptr::addr_of_mut!(BACKING).cast::<u8>().add(slot * MAXLEN as usize) }, cap, len }
+}
+pub(crate) fn mk_fd(subs: &crate::io_uring::sq::Submissions) -> (std::mem::ManuallyDrop<AsyncFd>, i32, Kind) {
+    let n: i32 = kani::any();
+    kani::assume(n >= 0);
+    let kind = any_kind();
+    (std::mem::ManuallyDrop::new(unsafe { AsyncFd::from_raw(n, kind, sq_from(subs.clone())) }), n, kind)
+}
+
+/// write_all: n == 0 => WriteZero; otherwise the next request covers exactly bytes [skip+n, len) at offset+n
+/// (or the current position), on the same descriptor; Ok exactly when skip+n == len, returning the original buffer.
+#[kani::proof]
+#[kani::unwind(3)]
+fn c10_write_all_step() {
+    let mut ring = FakeSq::<2>::new(0, 0, 0);
+    let subs = subs_of(ring.shared(2, false, false));
+    let (afd, fdn, kind) = mk_fd(&subs);
+    let buf = any_rb(0);
+    kani::assume(buf.len >= 1);
+    let skip: u32 = kani::any();
+    kani::assume(skip < buf.len);
+    let positional: bool = kani::any();
+    let offset: u64 = if positional { kani::any() } else { NO_OFFSET };
+    kani::assume(offset == NO_OFFSET || offset <= u64::MAX - 64);
+    let mut w = afd.write_all(buf);
+    if positional {
+        w = w.at(offset);
+    }
+    w.write.fut.state.resources_mut().unwrap().skip = skip;
+    // the kernel reports n bytes written out of the len - skip that were requested
+    let n: u32 = kani::any();
+    kani::assume(n <= buf.len - skip);
+    force_done(&w.write.fut.state, n as i32, 0);
+    env::fallback_as_identity();
+    env::use_poll_contract();
+    let waker = env::waker(4);
+    let mut ctx = Context::from_waker(&waker);
+    let r = unsafe { Pin::new_unchecked(&mut w) }.poll_inner(&mut ctx);
+    let t = ring.tail.load(Ordering::SeqCst);
+    if n == 0 {
+        assert!(matches!(&r, Poll::Ready(Err(e)) if e.kind() == io::ErrorKind::WriteZero), "nothing accepted => WriteZero");
+        assert!(t == 0);
+    } else if skip + n == buf.len {
+        assert!(matches!(&r, Poll::Ready(Ok(b)) if b.ptr == buf.ptr && b.len == buf.len && b.cap == buf.cap), "everything written => Ok with the caller's original buffer");
+        assert!(t == 0, "no further request");
+    } else {
+        assert!(r.is_pending(), "bytes left => continue");
+        assert!(t == 1, "exactly one continuation request");
+        let e = abi::Sqe {
+            opcode: abi::OP_WRITE,
+            fd: fdn,
+            flags: fixed(kind),
+            off: if positional { offset + n as u64 } else { NO_OFFSET },
+            addr: buf.ptr.addr() as u64 + (skip + n) as u64,
+            len: buf.len - skip - n,
+            user_data: user_data_of(&w.write.fut.state),
+            ..abi::ZERO
+        };
+        assert!(sqe_bytes(&ring.sqes[0]) == abi::words(&e), "continuation covers exactly the unwritten bytes, at the advanced offset, same descriptor");
+        assert!(status_any(&w.write.fut.state) == St::Running);
+    }
+    std::mem::forget(r);
+    std::mem::forget(w);
+    kani::cover!(n > 0 && skip + n < buf.len && positional, "positional continuation");
+    kani::cover!(n > 0 && skip + n < buf.len && !positional && skip > 0, "second continuation at the current position");
+    kani::cover!(skip + n == buf.len && skip > 0, "finished after a partial write");
+    kani::cover!(n == 0, "write zero");
 }
